@@ -203,3 +203,75 @@ def tables(tier, seed, runner, lines):
     cov['table_entries_compared'] = checked
     cov['modes'] = sorted(info['modes'])
     return {'coverage': cov, 'violations': viol}
+
+
+def _setrep_eval(step_texts):
+    """answers of the model driver's `setrep` mode for raw steps ('ok' / 'MISMATCH …' / 'RECORD-MISMATCH …' / 'BADSTATE …')"""
+    if not step_texts: return []
+    p = subprocess.run([lean_driver(), 'setrep'], input='\n'.join(step_texts) + '\n', stdout=subprocess.PIPE, stderr=subprocess.PIPE, text=True, timeout=3600)
+    out = p.stdout.split('\n')
+    if out and out[-1] == '': out = out[:-1]
+    if p.returncode != 0 or len(out) != len(step_texts):
+        raise RuntimeError('model driver (setrep) failed: rc=%s %d/%d answers: %s' % (p.returncode, len(out), len(step_texts), p.stderr[-1500:]))
+    return out
+
+
+def setrep(tier, seed, runner, lines):
+    """C05: the OPERATIONAL model of the in-place edits (Impl/SetRep.lean composed into whole setters by
+    Impl/SetRepApi.lean, and url_search_params::update) against the real object: for every setter call and every
+    params update of the main run the harness dumped the raw stored representation (normalised string, the 11
+    offsets with their zeros, flag word, segment count, scheme index) before and after; the model, run on the
+    BEFORE state, must produce the AFTER state exactly, return the same bool, and the result must be a
+    representation of the record the record-level setter (Impl.setValid) computes."""
+    steps = getattr(runner, 'main_steps', None) or []
+    cov = {'steps': len(steps)}
+    viol = []
+    if not steps: return {'coverage': cov, 'violations': viol}
+    ans = _setrep_eval([s for (_, s) in steps])
+    kinds = {}
+    changed = 0
+    for (i, s), a in zip(steps, ans):
+        t = s.split(' ', 3)
+        k = t[0] + (':' + t[1] if t[0] == 'set' else '')
+        kinds[k] = kinds.get(k, 0) + 1
+        parts = s.split(' | ')
+        if len(parts) == 3 and parts[1] != parts[2]: changed += 1
+    cov['steps_by_kind'] = dict(sorted(kinds.items()))
+    cov['steps_that_changed_the_representation'] = changed
+    bad = [(i, s, a) for (i, s), a in zip(steps, ans) if a != 'ok']
+    cov['mismatches'] = len(bad)
+    if not bad: return {'coverage': cov, 'violations': viol}
+    import check as C
+    cases = C.split_cases(lines)
+    seen = set()
+    for (i, s, a) in bad:
+        if len(viol) >= 3: break
+        cs = [c for c in cases if c[0] <= i < c[0] + len(c[1])]
+        if not cs or cs[0][0] in seen: continue
+        start, ls = cs[0]
+        seen.add(start)
+        cur = ls[:i - start + 1]
+        cls = a.split(' ')[0]
+        def fails(cand):
+            try:
+                cpp, rc, err, _ = runner.run(cand, need_model=False)
+            except Exception:
+                return False
+            st = [x for (j, x) in runner.last_steps if j == len(cand) - 1]
+            if not st: return False
+            try:
+                return _setrep_eval(st)[0].split(' ')[0] == cls
+            except Exception:
+                return False
+        budget = 60
+        j = 1
+        while j < len(cur) - 1 and budget > 0:
+            cand = cur[:j] + cur[j + 1:]
+            budget -= 1
+            if fails(cand): cur = cand
+            else: j += 1
+        detail = ('setrep\nthe in-place edit of the stored representation differs from the operational model (%s)\nstep: %s\nmodel answer: %s' % (
+            {'MISMATCH': 'C++ state after the call != model state after the call', 'RECORD-MISMATCH': 'the state after the call is not a representation of the record the setter should produce',
+             'BADSTATE': 'the state BEFORE the call is not the layout of any record: an earlier operation left a representation that no parse produces'}.get(cls, cls), s[:1200], a[:1200]))
+        viol.append(('setrep', cur, detail, True))
+    return {'coverage': cov, 'violations': viol}
